@@ -49,6 +49,9 @@ def family_F():
                     'unique titles at depth 2 next to a same-named section at depth 1 that allows duplicates'))
     F.append(Schema('F21', [Opt('sec', 'm', 'M', sub=[Opt('int', 'd', 'D', 5), Opt('int', 'dl', 'LDX', [b'1']), Opt('int', 'l', 'L', [b'1', b'2'])]),
                             Opt('int', 'dd', 'DX', 5)], 'deprecated / drop options and list defaults inside a multi section'))
+    F.append(Schema('F23', [Opt('sec', 'ds', 'DX', sub=[Opt('int', 'x', '', 1)]), Opt('sec', 'dm', 'MDX', sub=[Opt('int', 'x', '', 1)]),
+                            Opt('sec', 'dd', 'D', sub=[Opt('int', 'x', '', 1)]), Opt('int', 'i', '', 5)],
+                    'deprecated sections: single and multi ones that are dropped after they were read, one that is only reported'))
     F.append(Schema('F22', [Opt('sec', 'ns', 'N', sub=[Opt('int', 'x', '', 1), Opt('int', 'l', 'L', [b'1', b'2'])]), Opt('int', 'i', '', 5)],
                     'a single section declared NODEFAULT: absent until mentioned, then merged like any single section'))
     return F
